@@ -52,13 +52,15 @@ var CastTypes = map[string]string{
 	"Duration": "int64", // the candidate for duration_custom_type
 	"MyInt32":  "int32", "MyInt64": "int64", "MyUint32": "uint32", "MyUint64": "uint64",
 	"MyFloat32": "float32", "MyFloat64": "float64", "MyBool": "bool", "MyString": "string", "MyBytes": "[]byte",
+	// names that merely contain the name of the duration custom type: ordinary numeric casts
+	"SecondsDuration": "float64", "DurationMs": "int32",
 }
 
 // castFor maps a scalar kind to the cast types usable on it.
 func castFor(kind string) []string {
 	switch kind {
 	case "int32", "sint32", "sfixed32":
-		return []string{"MyInt32"}
+		return []string{"MyInt32", "DurationMs"}
 	case "int64", "sint64", "sfixed64":
 		return []string{"MyInt64", "Duration", "time.Duration"}
 	case "uint32", "fixed32":
@@ -68,7 +70,7 @@ func castFor(kind string) []string {
 	case "float":
 		return []string{"MyFloat32"}
 	case "double":
-		return []string{"MyFloat64"}
+		return []string{"MyFloat64", "SecondsDuration"}
 	case "bool":
 		return []string{"MyBool"}
 	case "string":
@@ -142,8 +144,14 @@ type fileGen struct {
 	hasCustom map[string]bool
 	// pairs remembers (field name, message type) of message-typed fields, so that with MultiPath
 	// several messages hold the same nested type under the same field name
-	pairs  [][2]string
-	simple bool // the message being generated holds only singular scalar-like fields
+	pairs [][2]string
+	// oneofs lists the oneof names used so far in the file
+	oneofs []string
+	// msgOneofs: message -> oneof names visible in its flattened view; embeddedOneofs: those of the
+	// messages embedded so far into the message being generated
+	msgOneofs      map[string][]string
+	embeddedOneofs []string
+	simple         bool // the message being generated holds only singular scalar-like fields
 }
 
 // File draws a proto file in D.
@@ -154,7 +162,7 @@ func File(t *rapid.T, o Opts) *ir.File {
 	if o.MaxFields == 0 {
 		o.MaxFields = 9
 	}
-	g := &fileGen{t: t, o: o, depth: map[string]int{}, flat: map[string]*nameSet{}, hasOneof: map[string]bool{}, complex: map[string]bool{}, hasEmbed: map[string]bool{}, hasCustom: map[string]bool{}}
+	g := &fileGen{t: t, o: o, depth: map[string]int{}, flat: map[string]*nameSet{}, hasOneof: map[string]bool{}, complex: map[string]bool{}, hasEmbed: map[string]bool{}, hasCustom: map[string]bool{}, msgOneofs: map[string][]string{}}
 	f := &ir.File{
 		Name:        rapid.SampledFrom([]string{"x.proto", "types.proto", "api_v1.proto", "a2.proto"}).Draw(t, "file"),
 		Package:     "v0",
@@ -256,6 +264,7 @@ func (g *fileGen) message(name string, last bool) *ir.Message {
 	// ones that can be embedded as nullable messages and that make small leaf objects.
 	simple := rapid.IntRange(0, 3).Draw(t, "simple") == 0
 	g.simple = simple
+	g.embeddedOneofs = nil
 	nf := rapid.IntRange(0, o.MaxFields).Draw(t, "nfields")
 	if nf == 0 && (o.NoEmpty || last || rapid.IntRange(0, 2).Draw(t, "emptyok") != 0) {
 		// empty messages are interesting but should not dominate; the last (root candidate) is never empty
@@ -290,8 +299,9 @@ func (g *fileGen) message(name string, last bool) *ir.Message {
 			pOne = 3
 		}
 		if !simple && len(oneofNames) < 3 && rapid.IntRange(0, pOne).Draw(t, "oneof?") == 0 {
-			on := names.fresh(t, "oneofname")
+			on := g.oneofName(names)
 			oneofNames = append(oneofNames, on)
+			g.msgOneofs[name] = append(g.msgOneofs[name], on)
 			nm := rapid.IntRange(1, 4).Draw(t, "nmembers")
 			for j := 0; j < nm; j++ {
 				fl := g.field(m, names, embedded, true)
@@ -310,6 +320,34 @@ func (g *fileGen) message(name string, last bool) *ir.Message {
 		i++
 	}
 	return m
+}
+
+// oneofName draws a oneof name; one in four is derived from a oneof name used earlier in the file
+// (prefix / suffix), so that names of different groups contain each other.
+func (g *fileGen) oneofName(names *nameSet) string {
+	t := g.t
+	pool, p := g.oneofs, 3
+	if len(g.embeddedOneofs) > 0 {
+		// the message already embeds a message with oneofs: derive from those half of the time
+		pool, p = g.embeddedOneofs, 1
+	}
+	if len(pool) > 0 && rapid.IntRange(0, p).Draw(t, "oneofderived") == 0 {
+		base := rapid.SampledFrom(pool).Draw(t, "oneofbase")
+		var cand string
+		if base[0] >= 'a' && base[0] <= 'z' {
+			cand = rapid.SampledFrom([]string{"my_" + base, base + "_ext"}).Draw(t, "oneofaffix")
+		} else {
+			cand = rapid.SampledFrom([]string{"Resource" + base, base + "Ext"}).Draw(t, "oneofaffix")
+		}
+		if names.okField(cand) {
+			names.addField(cand)
+			g.oneofs = append(g.oneofs, cand)
+			return cand
+		}
+	}
+	on := names.fresh(t, "oneofname")
+	g.oneofs = append(g.oneofs, on)
+	return on
 }
 
 func (g *fileGen) field(m *ir.Message, names *nameSet, embedded map[string]bool, inOneof bool) *ir.Field {
@@ -421,6 +459,8 @@ func (g *fileGen) field(m *ir.Message, names *nameSet, embedded map[string]bool,
 			g.hasEmbed[m.Name] = true
 			if g.hasOneof[fl.Type] {
 				g.hasOneof[m.Name] = true
+				g.embeddedOneofs = append(g.embeddedOneofs, g.msgOneofs[fl.Type]...)
+				g.msgOneofs[m.Name] = append(g.msgOneofs[m.Name], g.msgOneofs[fl.Type]...)
 			}
 			if g.complex[fl.Type] {
 				g.complex[m.Name] = true
